@@ -104,7 +104,8 @@ type c17Kind[K cmp.Ordered] struct {
 	fromFile func(r pdf.Getter, root pdf.Object) (c17Tree[K], error)
 	inMemory func(r pdf.Getter, root pdf.Object) (c17Tree[K], error)
 	size     func(r pdf.Getter, root pdf.Object) (int, error)
-	rawKey   func(obj pdf.Object) (K, bool) // key as stored in the file
+	memData  func(t c17Tree[K]) map[K]pdf.Object // the Data map of an in-memory tree
+	rawKey   func(obj pdf.Object) (K, bool)      // key as stored in the file
 	show     func(k K) string
 	absent   func(keys []K, present map[K]bool, i int) []K // absent probes near keys[i]
 	errNF    error
@@ -122,6 +123,12 @@ var c17Names = c17Kind[pdf.Name]{
 		return nametree.ExtractInMemory(r, root)
 	},
 	size: nametree.Size,
+	memData: func(t c17Tree[pdf.Name]) map[pdf.Name]pdf.Object {
+		if m, ok := t.(*nametree.InMemory); ok && m != nil {
+			return m.Data
+		}
+		return nil
+	},
 	rawKey: func(obj pdf.Object) (pdf.Name, bool) {
 		s, ok := obj.(pdf.String)
 		return pdf.Name(s), ok
@@ -166,6 +173,12 @@ var c17Nums = c17Kind[pdf.Integer]{
 		return numtree.ExtractInMemory(r, root)
 	},
 	size: numtree.Size,
+	memData: func(t c17Tree[pdf.Integer]) map[pdf.Integer]pdf.Object {
+		if m, ok := t.(*numtree.InMemory); ok && m != nil {
+			return m.Data
+		}
+		return nil
+	},
 	rawKey: func(obj pdf.Object) (pdf.Integer, bool) {
 		x, ok := obj.(pdf.Integer)
 		return x, ok
@@ -665,6 +678,17 @@ func c17Probe[K cmp.Ordered](r *c17Run[K], rd *pdf.Reader, rootObj pdf.Object, k
 			}
 		}
 		for k, v := range seq {
+			if i < n && (i == n/3 || i%97 == 5) {
+				// another consumer of the same reader while the enumeration is running:
+				// the next key and the greatest one
+				for _, j := range []int{min(i+1, n-1), n - 1} {
+					if got, err := x.t.Lookup(keys[j]); err != nil || c17Canon(got) != want[j] {
+						r.fail("lookup/"+x.name+"/during-enumeration", "%s Lookup(%s) inside a running All() loop = %s, %v; stored %s", x.name, kd.show(keys[j]), kit.Trunc(c17Canon(got), 200), err, kit.Trunc(want[j], 200))
+						bad = true
+					}
+				}
+				c.R.Count("lookups_during_enumeration", 2)
+			}
 			if i >= n {
 				r.fail("enumerate/"+x.name+"/extra", "%s All() yields more than %d entries: %s", x.name, n, kd.show(k))
 				bad = true
@@ -697,6 +721,33 @@ func c17Probe[K cmp.Ordered](r *c17Run[K], rd *pdf.Reader, rootObj pdf.Object, k
 				r.fail("enumerate/"+x.name+"/second-pass", "%s: a second pass over the sequence returned by one All() call yields %d of %d entries", x.name, again, n)
 			}
 			c.R.Count("sequences_ranged_over_twice", 1)
+		}
+	}
+	// the in-memory tree is a map the caller may edit: a key moved (one removed,
+	// one added, same size) between two enumerations
+	if data := kd.memData(mem); data != nil && n >= 2 {
+		absent := kd.absent(keys, present, n-1)
+		if len(absent) > 0 {
+			victim, newcomer := keys[c.Rng.Intn(n)], absent[0]
+			val := data[victim]
+			delete(data, victim)
+			data[newcomer] = val
+			var prev K
+			cnt, sawNew, sawOld, ordered := 0, false, false, true
+			for k := range mem.All() {
+				if cnt > 0 && !(prev < k) {
+					ordered = false
+				}
+				prev = k
+				cnt++
+				sawNew = sawNew || k == newcomer
+				sawOld = sawOld || k == victim
+			}
+			if cnt != n || !sawNew || sawOld || !ordered {
+				r.fail("enumerate/in-memory/after-edit", "after moving %s to %s in the Data map, All() yields %d entries (map: %d), new key present: %v, old key present: %v, ascending: %v",
+					kd.show(victim), kd.show(newcomer), cnt, n, sawNew, sawOld, ordered)
+			}
+			c.R.Count("in_memory_maps_edited", 1)
 		}
 	}
 	if sz, err := kd.size(rd, rootObj); err != nil || sz != n {
